@@ -343,6 +343,8 @@ def run(case, st):
                         break
         for kind, msg in bad[:3]:
             st.violation(ckey(case, kind), case, 'level=%s template=%r renderer=%s/%s: %s' % (case['level'], case['template'], case['renderer'], case['theme'], msg))
+        if not bad and common.case_hash(case)[0] % 6 == 0:
+            again_other_setting(case, st)
         st.feature('files-produced', min(len(names), 8))
         nsec = len(tr['units']) - 1
         return {'nontrivial': len(names) >= 2 or (single and nsec >= 2), 'sample': {'level': case['level'], 'template': case['template'], 'files': names[:6]}}
@@ -352,6 +354,41 @@ def run(case, st):
 
 def ckey(case, kind):
     return kind
+
+
+def again_other_setting(case, st):
+    """'The same on every run of the same input' includes a run that comes after other runs in the same interpreter: the document
+    just rendered is rendered once more here under another bad-chars setting, and the names must be the ones a fresh process
+    issues for that input and setting (and obey that setting)."""
+    cur = case.get('bad')
+    others = [b for b in BADCHARS if b is not None and b != cur] + ([None] if cur is not None else [])
+    other = others[common.case_hash(case)[1] % len(others)]
+    c2 = dict(case, bad=other, kind='determinism')
+    common.plastex_reset()
+    try:
+        out = R.render(c2['src'], c2['renderer'], overrides(c2))
+    except common.CaseTimeout:
+        raise
+    except Exception as e:
+        st.violation('again/render-raises-' + type(e).__name__, case, 'second rendering under bad-chars %r: %s' % (other, traceback.format_exc()[-500:]))
+        return
+    finally:
+        common.plastex_reset()
+    try:
+        names = list(out.files.values())
+    finally:
+        out.cleanup()
+    env = dict(os.environ)
+    p = subprocess.run([sys.executable, '-m', 'pvmon.props.c13'], input=json.dumps(c2), capture_output=True, text=True, env=env, timeout=100)
+    if p.returncode != 0:
+        st.notes['again: fresh process failed'] += 1
+        return
+    fresh = json.loads(p.stdout)['names']
+    st.counters['reruns_under_other_setting'] += 1
+    if names != fresh:
+        diff = [(a, b) for a, b in zip(names, fresh) if a != b][:3]
+        st.violation('names-depend-on-earlier-runs', case, 'level=%s template=%r: rendered after the same document under bad-chars %r, the run under bad-chars %r issues %r where a fresh process issues %r' % (
+            case['level'], case['template'], cur, other, [d[0] for d in diff] or names, [d[1] for d in diff] or fresh))
 
 
 def run_det(case, st):
